@@ -254,3 +254,38 @@ func (e *ExprEnv) noTernary() *ExprEnv {
 	c.Ternary = false
 	return &c
 }
+
+// HasSqrtFold reports whether e contains a square root whose operand the
+// optimizer could fold (known finding C03-sqrt-fold).
+func HasSqrtFold(e lang.Expr) bool {
+	switch x := e.(type) {
+	case lang.Unary:
+		if x.Op == "√" && Foldable(x.X) {
+			return true
+		}
+		return HasSqrtFold(x.X)
+	case lang.Binary:
+		return HasSqrtFold(x.L) || HasSqrtFold(x.R)
+	case lang.Paren:
+		return HasSqrtFold(x.X)
+	case lang.Index:
+		return HasSqrtFold(x.X) || HasSqrtFold(x.I)
+	case lang.Dot:
+		return HasSqrtFold(x.X)
+	case lang.Ternary:
+		return HasSqrtFold(x.C) || HasSqrtFold(x.A) || HasSqrtFold(x.B)
+	case lang.Call:
+		for _, a := range x.Args {
+			if HasSqrtFold(a) {
+				return true
+			}
+		}
+	case lang.ArrayLit:
+		for _, a := range x.Elems {
+			if HasSqrtFold(a) {
+				return true
+			}
+		}
+	}
+	return false
+}
